@@ -20,7 +20,7 @@ RULE = ("Hypothesis: DAG adjacency / weight matrices (binary, signed, column-can
         "by the checker) equals a logged noise draw (+ a logged shift draw | the new noise's draw); parent sets recomputed "
         "from the non-zero pattern; recorded blocks must be the final parent columns in increasing index order; shape (n,p). "
         "Non-trivial = some node has >=2 parents with an asymmetric assignment and (an intervention overlap, a cancelling "
-        "column, or a directed path of length >=2).")
+        "column, or a directed path of length >=2). Also: models relabelled into 13..70 variables, in-place-rectifying and falsy-callable assignments, table-backed noise callables, tiny weights.")
 ASSUMPTIONS = [
     "a callable may be called more than once: 'a draw' means any draw logged during the call",
     "simultaneous shift + noise intervention on one target has no documented rule and is not generated",
